@@ -74,6 +74,9 @@ def run(ctx):
     for s in rep.get("samples") or []:
         ctx.add_sample(s)
     ctx.extra["classes"] = rep.get("classes")
+    for m in rep.get("mismatches") or []:   # (what the harness itself decides: the path of a depth error)
+        if not m.get("known"):
+            ctx.violations.append({"from": "envelope-harness", "what": m["what"], "case": m.get("case")})
     res = vlib.run_tlc(ctx, "EnvelopeJudge", JUDGE_CFG, extra_files=[out], workers=1, timeout=3000, tag="@@VER", xss="64m")
     vlib.require_clean(res, "EnvelopeJudge")
     recs = [json.loads(l) for l in open(out)]
